@@ -449,6 +449,7 @@ def run(ctx):
                                       {"path": path, "field": fld, "configuration": c, "local": {k: v for k, v in ref.items() if k != "sup"} if not fld.startswith("sup") else ref["sup"],
                                        "received": {k: v for k, v in got.items() if k != "sup"} if not fld.startswith("sup") else got["sup"]})
 
+    ctx.coq_build(["theories/C37/Probe.vo"])
     res, cout = coq_compare(ctx, cases, probes, skip)
     if res is None:
         ctx.tie_broken("model evaluation (cases_C37.v did not evaluate)", cout)
